@@ -292,18 +292,18 @@ func (d *Decoder) readTypedList(tag byte) (interface{}, error) {
 			return nil, newCodecError("readTypedList", err)
 		}
 
+		if isVariableArr {
+			// one more element: the zero value, replaced below unless the element is null
+			aryValue = reflect.Append(aryValue, reflect.Zero(aryType.Elem()))
+			holder.change(aryValue)
+		}
+
 		if item == nil {
 			// a null element leaves the zero value in place
 			continue
 		}
 
-		v := EnsureRawValue(item)
-		if isVariableArr {
-			aryValue = reflect.Append(aryValue, v)
-			holder.change(aryValue)
-		} else {
-			SetValue(aryValue.Index(j), v)
-		}
+		SetValue(aryValue.Index(j), EnsureRawValue(item))
 	}
 
 	holder.complete = true
@@ -364,12 +364,13 @@ func (d *Decoder) readUntypedList(tag byte) (interface{}, error) {
 		}
 
 		if isVariableArr {
-			aryValue = reflect.Append(aryValue, EnsureRawValue(it))
+			// one more element (a null element stays nil)
+			ary = append(ary, nil)
+			aryValue = reflect.ValueOf(ary)
 			holder.change(aryValue)
-		} else {
-			// store the decoded value itself, not the carrier of a nested list or of a back-reference
-			ary[j], _ = EnsureInterface(it, nil)
 		}
+		// store the decoded value itself, not the carrier of a nested list or of a back-reference
+		ary[j], _ = EnsureInterface(it, nil)
 	}
 
 	holder.complete = true
